@@ -42,6 +42,26 @@ Definition resume_at (fs : list (frame obj)) (off : Z) : option (list obj * Z) :
   | None => None
   end.
 
+(* the offsets a scanner started on data[off:] (by slicing or by Seek: the same thing for the
+   decoder, which only counts what it reads) reports after each of its objects: relative to off *)
+Definition resume_offsets (fs : list (frame obj)) (off : Z) : option (list Z * list Z) :=
+  match seek off fs with
+  | Some rest => let t := trace (scan current rest (total_size fs - off)) in
+                 Some (map (fun x => snd (fst x)) t, map (fun x => snd x) t)
+  | None => None
+  end.
+Definition spec_resume_offsets (fs : list (frame obj)) (off : Z) : option (list Z * list Z) :=
+  match seek off fs with
+  | Some rest => let t := spec_trace rest in
+                 Some (map (fun x => snd (fst x)) t, map (fun x => snd x) t)
+  | None => None
+  end.
+Definition offs_is (m : option (list Z * list Z)) (a b : list Z) : bool :=
+  match m with
+  | Some (x, y) => list_eqb Z.eqb x a && list_eqb Z.eqb y b
+  | None => false
+  end.
+
 Definition res_eqb (m : option (list obj * Z)) (objs : list obj) (e : Z) : bool :=
   match m with
   | Some (l, c) => objs_eqb l objs && ((c =? 0) && (e =? 0) || (c =? 1) && negb (e =? 0))
@@ -53,14 +73,14 @@ Definition oL_is (m : option (list obj)) (l : list obj) : bool :=
   match m with Some x => objs_eqb x l | None => false end.
 
 Record stoprun := StopRun { s_lo : Z; s_hi : Z; s_fsb : Z; s_pfsb : Z; s_fsb2 : Z; s_pfsb2 : Z;
-                            s_res : list obj; s_rerr : Z;
+                            s_res : list obj; s_rfsb : list Z; s_rpfsb : list Z; s_rerr : Z;
                             s_pres : list obj; s_perr : Z; s_short : bool }.
 
 Definition pstoprun : P stoprun :=
   lo <- pint ;; hi <- pint ;; fsb <- pint ;; pfsb <- pint ;; fsb2 <- pint ;; pfsb2 <- pint ;;
-  res <- pobjs ;; rerr <- pint ;;
+  res <- pobjs ;; rfsb <- plist pint ;; rpfsb <- plist pint ;; rerr <- pint ;;
   pres <- pobjs ;; perr <- pint ;; sh <- pbool ;;
-  ret (StopRun lo hi fsb pfsb fsb2 pfsb2 res rerr pres perr sh).
+  ret (StopRun lo hi fsb pfsb fsb2 pfsb2 res rfsb rpfsb rerr pres perr sh).
 
 Fixpoint stops_partition (next total : Z) (runs : list stoprun) : bool :=
   match runs with
@@ -79,11 +99,13 @@ Fixpoint stop_sweep (fs : list (frame obj)) (r : result obj) (all : list obj) (s
       let m := (fsb_after r k =? s_fsb s) && (pfsb_after r k =? s_pfsb s)
                && (fsb_after r k =? s_fsb2 s) && (pfsb_after r k =? s_pfsb2 s)
                && res_eqb (resume_at fs (s_fsb s)) (s_res s) (s_rerr s)
+               && offs_is (resume_offsets fs (s_fsb s)) (s_rfsb s) (s_rpfsb s)
                && res_eqb (resume_at fs (s_pfsb s)) (s_pres s) (s_perr s)
                && negb (s_short s) in
       let p := oZ_is (spec_fsb fs k) (s_fsb s) && oZ_is (spec_pfsb fs k) (s_pfsb s)
                && oZ_is (spec_fsb fs k) (s_fsb2 s) && oZ_is (spec_pfsb fs k) (s_pfsb2 s)
                && oL_is (spec_resumed fs k) (s_res s) && (s_rerr s =? 0)
+               && offs_is (spec_resume_offsets fs (s_fsb s)) (s_rfsb s) (s_rpfsb s)
                && oL_is (spec_prev_resumed fs k) (s_pres s) && (s_perr s =? 0)
                && negb (s_short s)
                (* "never skips an element": what was returned before the stop and is not
@@ -110,11 +132,52 @@ Definition check_stops : P (list Z) :=
   ret (code_if (j1 && objs_eqb (objects r) all) 1 ++ code_if j2 2
        ++ code_if (stops_partition 0 (Z.of_nat (length all)) runs) 3)%list.
 
+(* 3 SHARED: procs frames runs   run = k_lo k_hi fsb resumed rerr in_flight short
+   the same ReadSeeker serves the first scanner and, after Close and Seek(fsb), the restarted one:
+   no Read of the closed scanner may be in progress when Close returns, and the restart yields the
+   objects from the current block on *)
+Record shrun := ShRun { h_lo : Z; h_hi : Z; h_fsb : Z; h_res : list obj; h_rerr : Z; h_fl : bool; h_short : bool }.
+Definition pshrun : P shrun :=
+  lo <- pint ;; hi <- pint ;; fsb <- pint ;; res <- pobjs ;; rerr <- pint ;; fl <- pbool ;; sh <- pbool ;;
+  ret (ShRun lo hi fsb res rerr fl sh).
+
+Fixpoint sh_partition (next total : Z) (runs : list shrun) : bool :=
+  match runs with
+  | [] => next =? total + 1
+  | s :: r => (h_lo s =? next) && (h_lo s <=? h_hi s) && sh_partition (h_hi s + 1) total r
+  end.
+
+Fixpoint sh_sweep (fs : list (frame obj)) (r : result obj) (s : shrun) (k n : nat) (j1 j2 : bool) : bool * bool :=
+  match n with
+  | O => (j1, j2)
+  | S n' =>
+      let ok := negb (h_fl s) && negb (h_short s) in
+      let m := (fsb_after r k =? h_fsb s) && res_eqb (resume_at fs (h_fsb s)) (h_res s) (h_rerr s) && ok in
+      let p := oZ_is (spec_fsb fs k) (h_fsb s) && oL_is (spec_resumed fs k) (h_res s) && (h_rerr s =? 0) && ok in
+      sh_sweep fs r s (S k) n' (j1 && m) (j2 && p)
+  end.
+
+Fixpoint sh_runs (fs : list (frame obj)) (r : result obj) (runs : list shrun) (j1 j2 : bool) : bool * bool :=
+  match runs with
+  | [] => (j1, j2)
+  | s :: rest =>
+      let '(a, b) := sh_sweep fs r s (Z.to_nat (h_lo s)) (Z.to_nat (h_hi s - h_lo s + 1)) j1 j2 in
+      sh_runs fs r rest a b
+  end.
+
+Definition check_shared : P (list Z) :=
+  procs <- pint ;; fs <- pframes ;; runs <- plist pshrun ;;
+  let r := scan current fs (total_size fs) in
+  let '(j1, j2) := sh_runs fs r runs true true in
+  ret (code_if j1 1 ++ code_if j2 2
+       ++ code_if (sh_partition 0 (Z.of_nat (length (objs_of fs))) runs) 3)%list.
+
 Definition check_case (t : toks) : list Z :=
   match t with
   | tag :: rest =>
       let p := if tag =? 2 then check_trace
                else if tag =? 4 then check_stops
+               else if tag =? 6 then check_shared
                else pfail in
       match parse_all p rest with Some codes => codes | None => [0] end
   | [] => [0]
